@@ -182,7 +182,8 @@ pub fn replay(a: &HashMap<String, String>) -> i32 {
 }
 
 fn gen_cells(rng: &mut Rng) -> Vec<String> {
-    let vals = ["N", "V", "*", "名詞", "q,r", "x", "y"];
+    // (values ending in white space: the ideographic-space entry of ipadic has U+3000 as its base form)
+    let vals = ["N", "V", "*", "名詞", "q,r", "x", "y", "y ", "\u{3000}"];
     // mostly 1-3 cells; one row in eight has 11-13 (templates may name two-digit columns)
     let n = if rng.chance(1, 8) { 11 + rng.below(3) } else { 1 + rng.below(3) };
     // one cell in sixteen is empty (an empty string is a feature value like any other)
@@ -217,7 +218,8 @@ fn gen_train_in(rng: &mut Rng, bare_refs: bool) -> TrainIn {
     for _ in 0..nseed {
         let len = 1 + rng.below(3);
         // surfaces that need CSV quoting when written back: a quote, a comma
-        let s: Vec<u32> = (0..len).map(|_| if rng.chance(1, 8) { *rng.pick(&[0x22u32, 0x2C]) } else { *rng.pick(&LETTERS[..6]) }).collect();
+        // characters that need CSV quoting when written back: a quote, a comma, a line feed, a carriage return
+        let s: Vec<u32> = (0..len).map(|_| if rng.chance(1, 8) { *rng.pick(&[0x22u32, 0x2C, 0x0A, 0x0D]) } else { *rng.pick(&LETTERS[..6]) }).collect();
         seed.push((s, gen_cells(rng)));
     }
     if rng.chance(1, 2) {
@@ -245,10 +247,16 @@ fn gen_train_in(rng: &mut Rng, bare_refs: bool) -> TrainIn {
                     sent.push(((0..len).map(|_| *rng.pick(&[0x61u32, 0x7A, 0x3042])).collect(), gen_cells(rng)));
                 }
                 _ => {
-                    let w = rng.pick(&seed).clone();
-                    sent.push(w);
+                    // (the corpus format is line based: words whose surface holds a line break stay out of it)
+                    let ok: Vec<&(Vec<u32>, Vec<String>)> = seed.iter().filter(|w| !w.0.contains(&0x0A) && !w.0.contains(&0x0D)).collect();
+                    if let Some(w) = ok.get(rng.below(ok.len().max(1))) {
+                        sent.push((*w).clone());
+                    }
                 }
             }
+        }
+        if sent.is_empty() {
+            sent.push((vec![0x61], vec!["N".to_string()]));
         }
         corpus.push(sent);
     }
